@@ -34,6 +34,7 @@ MAX_CONFIRM = 6
 KEYS = {"psign-fast@split": "mesh2d-winding:on-split-line",
         "psign-fast@vlevel": "mesh2d-winding:level-with-vertex",
         "psign-fast@other": "mesh2d-winding:other-point",
+        "psign-fast@snap": "mesh2d-winding:vertex-in-snap-band",
         "sign-fast@snap": "mesh2d-winding:vertex-in-snap-band",
         "sign-polygon2d@snap": "mesh2d-winding:vertex-in-snap-band"}
 
